@@ -563,10 +563,25 @@ func checkMatchAllFallback(c *Check, fn *ssa.Function, kAll int64) {
 		if cl == nil || callName(&cl.Call) != "(*route.matchAllLeaf).matchAll" {
 			return false
 		}
-		ta, ok := strip(cl.Call.Args[0]).(*ssa.TypeAssert)
+		av := strip(cl.Call.Args[0])
+		if e, isE := av.(*ssa.Extract); isE && e.Index == 0 {
+			av = e.Tuple // ml, ok := leaf.(*matchAllLeaf)
+		}
+		ta, ok := av.(*ssa.TypeAssert)
 		return ok && last(ta.X)
 	}
 	maFailed := edgesWhere(fn, cBool(isMA), false)
+	// a checked assertion of the last leaf that fails (impossible after the style test) also reports no match
+	assertFailed := EdgeSet{}
+	for _, b := range fn.Blocks {
+		if ifi, isIf := b.Instrs[len(b.Instrs)-1].(*ssa.If); isIf {
+			if e, isE := strip(ifi.Cond).(*ssa.Extract); isE && e.Index == 1 {
+				if ta, isTA := e.Tuple.(*ssa.TypeAssert); isTA && ta.CommaOk && last(ta.X) {
+					assertFailed[Edge{b, 1}] = true
+				}
+			}
+		}
+	}
 	// start: the loop-exit block of the subtree loop
 	subs := vField(recv, "subtrees")
 	var done *ssa.BasicBlock
@@ -587,7 +602,7 @@ func checkMatchAllFallback(c *Check, fn *ssa.Function, kAll int64) {
 		c.Bad(key, p.FuncPos(fn), "no call of the match-all leaf's matchAll on the LAST leaf (leaves[len-1]) after the subtree loop: a trailing match-all route is never tried after alternatives that continue with further segments")
 		return
 	}
-	in, path := Query{Fn: fn, Cut: union(noLeaf, notAll, maFailed)}.Reach(done, 0, falseVerdict(fn))
+	in, path := Query{Fn: fn, Cut: union(noLeaf, notAll, maFailed, assertFailed)}.Reach(done, 0, falseVerdict(fn))
 	if in == nil {
 		c.OK(key, p.FuncPos(fn), "post-loop no-match returns only via len(leaves)==0, style(last) != all, or matchAll(last) == false", numInstrs(fn))
 	} else {
